@@ -139,6 +139,18 @@ def flat(axes):
     return out
 
 
+def groupify(v):
+    """the value stored under a computed key of a dict that was filled in a loop over X: lists that received the loop's elements
+    enumerate a group G of X, lists that received the loop's positions hold G's positions inside X"""
+    if isinstance(v, Seq) and v.kind == "py" and v.items:
+        if all(isinstance(x, Obj) for x in v.items): return ObjList("G")
+        if all(isinstance(x, IndexOf) for x in v.items): return ListOf("G", IndexOf(v.items[0].atom))
+        return Seq([groupify(x) for x in v.items], "py")
+    if isinstance(v, Const) and isinstance(v.value, dict):
+        return Const({k: groupify(x) for k, x in v.value.items()})
+    return v
+
+
 def unknownish(f):
     return any(x.startswith("?") for x in f)
 
@@ -240,6 +252,7 @@ class LayoutDomain:
         elif isinstance(v, ListOf): atom, out = v.atom, v.elem
         elif isinstance(v, Arr) and v.axes: atom, out = "*".join(v.axes[0]), Arr(v.axes[1:])
         elif isinstance(v, RotL): atom, out = "*".join(v.f), RotL(())
+        elif isinstance(v, CumIdx): atom, out = "?", CumIdx("point")          # zip(.., offsets[:-1], offsets[1:]): one block boundary per step
         elif isinstance(v, ZipV):
             parts = [self.iter_elems(p, node) for p in v.parts]
             atoms = [getattr(self, "_last_iter_atom", "?")]
@@ -353,6 +366,7 @@ class LayoutDomain:
                 return Arr((("??attr",),))        # an array-valued private attribute this table does not know: unknown layout (never a claim)
             return U("attr")
         if isinstance(recv, Arr) and name == "T": return Arr(tuple(reversed(recv.axes)))
+        if isinstance(recv, Arr) and name == "shape": return Seq([Sz(tuple(a)) for a in recv.axes], "py")
         return U("attr " + name)
 
     def store_attr(self, recv, name, val, tnode, node):
@@ -367,6 +381,9 @@ class LayoutDomain:
         if isinstance(it, SliceV): return (it.part,) if axis == ("P",) else ("?sub",)
         if isinstance(it, (IndexOf, Sz)) or (isinstance(it, Const) and isinstance(it.value, int)): return None
         if isinstance(it, Const) and it.value is None: return ("#1",)
+        if isinstance(it, ListOf) and isinstance(it.elem, IndexOf):
+            # fancy index with the positions a sub-list holds inside this axis: the selected rows enumerate the sub-list
+            return (it.atom,) if axis == (it.elem.atom,) else ("?fancy",)
         if isinstance(it, Seq): return ("?fancy",)
         if isinstance(it, Arr): return ("?mask",)
         return ("?idx",)
@@ -410,10 +427,8 @@ class LayoutDomain:
             return recv.items[idx[0].value]
         if isinstance(recv, Const) and isinstance(recv.value, dict) and isinstance(idx[0], Const) and idx[0].value in recv.value:
             return recv.value[idx[0].value]
-        if isinstance(recv, Unknown) and isinstance(idx[0], Const) and isinstance(idx[0].value, str):
-            # declared record of a field-function group: {"sources": [...], "order": [...]}
-            if idx[0].value == "sources": return ObjList("G")
-            if idx[0].value == "order": return ListOf("G", IndexOf("SRCFLAT"))
+        if isinstance(recv, Const) and isinstance(recv.value, dict) and not isinstance(idx[0], (Const, tuple)) and "*" in recv.value:
+            return recv.value["*"]            # the entry under a computed key (one abstract entry stands for all of them)
         if isinstance(recv, ExtName) and recv.q.endswith("np.s_"):
             it = idx[0]
             return SliceV("?") if isinstance(it, tuple) else U("s_")
@@ -507,6 +522,7 @@ class LayoutDomain:
     def method(self, recv, name, args, kwargs, node):
         if isinstance(recv, Arr):
             if name == "reshape":
+                if len(args) == 1 and not isinstance(args[0], (Seq, Sz, Const)): return U("reshape to an unknown shape")
                 shape = args[0] if len(args) == 1 and isinstance(args[0], (Seq,)) else Seq(args, "py")
                 dims = self._dims_from(shape)
                 if dims is None: return U("reshape")
@@ -530,10 +546,22 @@ class LayoutDomain:
             return U("rot." + name)
         if isinstance(recv, Const) and isinstance(recv.value, dict):
             if name == "items":
-                if "*" in recv.value: return U("items of a dict with computed keys")
+                if "*" in recv.value:
+                    if set(recv.value) == {"*"}: return ListOf("GROUPS", Seq([U("key"), groupify(recv.value["*"])], "py"))
+                    return U("items of a dict with computed keys")
                 return Seq([Seq([Const(k), v], "py") for k, v in recv.value.items()], "py")
-            if name == "values": return Seq(list(recv.value.values()), "py")
+            if name == "values":
+                if set(recv.value) == {"*"}: return ListOf("GROUPS", groupify(recv.value["*"]))
+                return Seq(list(recv.value.values()), "py")
+            if name == "setdefault" and len(args) == 2:
+                k = args[0].value if isinstance(args[0], Const) else "*"
+                return recv.value.setdefault(k, args[1])
             if name in ("pop", "get"): return U("dict." + name)
+            if name == "update" and len(args) == 1 and isinstance(args[0], Const) and isinstance(args[0].value, dict) and not kwargs:
+                for k, v in args[0].value.items():          # in-place: the dict object is shared with every alias of recv
+                    if k == "*": recv.value.setdefault("*", v)
+                    else: recv.value[k] = v
+                return Const(None)
         if isinstance(recv, (ListOf,)) and name in ("append", "extend"): return Const(None)
         if isinstance(recv, Seq) and recv.kind == "py" and name in ("append", "extend") and args:
             if not (name == "extend" and not isinstance(args[0], Seq)):
